@@ -4,7 +4,7 @@ ALL = ['directory', 'tile_manager', 'read_directories', 'write_directories', 'he
 PROPS = {
     'C01': {'units': ALL, 'kani': ['latlng'], 'witness': 'C01'},
     'C02': {'units': ['pmtiles', 'write_directories', 'tile_manager', 'directory', 'header'], 'witness': 'C02'},
-    'C03': {'units': ['pmtiles', 'read_directories', 'directory', 'tile_manager', 'header'], 'witness': 'C03'},
+    'C03': {'units': ['pmtiles', 'read_directories', 'directory', 'tile_manager', 'header'], 'kani': ['dirfind'], 'witness': 'C03'},
     'C04': {'units': ['tile_manager', 'pmtiles'], 'witness': 'C04'},
     'C05': {'units': ['directory'], 'kani': ['varint'], 'witness': 'C05'},
     'C06': {'units': ['write_directories', 'directory'], 'witness': 'C06'},
